@@ -291,6 +291,8 @@ def extract(repo, key):
     return (parse_guard_fn(pkf, "pk", "pk", V), parse_guard_fn(sgf, "sig", "sig", V)), None
 
 
+# resource releases that may precede the jump in a rejecting block (they do not change which inputs are rejected)
+RELEASE = r"(?:theta_chain_finalize\s*\(\s*&\s*\w+\s*\)\s*;\s*)*"
 ORDER_RE = re.compile(r"!\s*test_point_order_twof\s*\(\s*&\s*(T1m2|T1|T2)\s*\.\s*(P1|P2)\s*,\s*&\s*EchallxEaux\s*\.\s*(E1|E2)\s*,\s*([^)]*?)\s*\)")
 
 
@@ -303,7 +305,7 @@ def extract_checks(repo, key):
     body = find_function(src, "protocols_verif")
     pts = []
     # rejecting ifs: `if ( ... ) { goto cleanup; }` or `{ return 0; }`
-    for m in re.finditer(r"if\s*\(((?:[^(){}]|\((?:[^(){}]|\([^(){}]*\))*\))*)\)\s*\{\s*(?:goto\s+cleanup|return\s+0)\s*;\s*\}", body):
+    for m in re.finditer(r"if\s*\(((?:[^(){}]|\((?:[^(){}]|\([^(){}]*\))*\))*)\)\s*\{\s*" + RELEASE + r"(?:goto\s+cleanup|return\s+0)\s*;\s*\}", body):
         cond = m.group(1)
         if "EchallxEaux" in cond:
             parts = [c.strip() for c in cond.split("||")]
@@ -314,10 +316,10 @@ def extract_checks(repo, key):
                 pts.append((mm.group(1), mm.group(2), mm.group(3), re.sub(r"\s+", "", mm.group(4))))
     kervar = "ker" if key == "dim2" else "phi_chall.kernel"
     kerlen = "sig->two_resp_length" if key == "dim2" else "phi_chall.length"
-    ker = re.search(r"if\s*\(\s*!\s*test_point_order_twof\s*\(\s*&\s*%s\s*,\s*&\s*\w+\s*,\s*%s\s*\)\s*\)\s*\{\s*goto\s+cleanup\s*;" %
-                    (re.escape(kervar), re.escape(kerlen)), body) is not None
+    ker = re.search(r"if\s*\(\s*!\s*test_point_order_twof\s*\(\s*&\s*%s\s*,\s*&\s*\w+\s*,\s*%s\s*\)\s*\)\s*\{\s*%sgoto\s+cleanup\s*;" %
+                    (re.escape(kervar), re.escape(kerlen), RELEASE), body) is not None
     chain = (re.search(r"int\s+chain_ok\s*=\s*theta_chain_comput_strategy_faster_no_eval\s*\(", body) is not None and
-             re.search(r"if\s*\(\s*!\s*chain_ok\s*\)\s*\{\s*goto\s+cleanup\s*;", body) is not None)
+             re.search(r"if\s*\(\s*!\s*chain_ok\s*\)\s*\{\s*" + RELEASE + r"goto\s+cleanup\s*;", body) is not None)
     if chain:
         # the callee must really report failure: `if (!is_split) { return 0; }` ... `return 1;`
         hd = strip_comments(open(os.path.join(repo, "src/hd/ref/hdx/theta_isogenies.c")).read())
